@@ -105,6 +105,19 @@ pub fn check_from(rep: &mut Rep, w: &World, r_c: i128, dy: TimeScale, su: TimeSc
             if e.time_scale != dy || count_d(e.duration) != r_c {
                 rep.fail("from-dyn/ctor", None, || format!("from_{:?}_duration({}) = ({}, {:?})", dy, r_c, count_d(e.duration), e.time_scale));
             }
+            // the float-seconds constructor of the same scale: a whole number of seconds below 2^53 ns is exact (C18)
+            let whole = (r_c / NS_S) * NS_S;
+            if whole.abs() < (1i128 << 53) {
+                let x = (whole / NS_S) as f64;
+                match guard(|| if dy == TimeScale::ET { Epoch::from_et_seconds(x) } else { Epoch::from_tdb_seconds(x) }) {
+                    Err(p) => rep.fail(&format!("from-dyn/panic/{}", p.class()), None, || format!("from_{:?}_seconds({x}) panicked: {}", dy, p.msg)),
+                    Ok(fs) => {
+                        if fs.time_scale != dy || count_d(fs.duration) != whole {
+                            rep.fail("from-dyn/ctor-seconds", None, || format!("from_{:?}_seconds({x}) = ({}, {:?}) want {}", dy, count_d(fs.duration), fs.time_scale, whole));
+                        }
+                    }
+                }
+            }
             let gc = count_d(g.duration);
             rep.note_max("max_abs_dev_from_closed_form_ns", (gc - want).abs() as f64);
             if g.time_scale != su || (gc - want).abs() > 30 {
